@@ -394,7 +394,17 @@ class Gen:
             f = self.new_fn(params=[], results=[dict(k="obj", fields=[dict(k="single", ty=k[1], name=k[2], **{"as": []})])], err=False)
             self.ops.append(dict(op="provide", scope=chain[-1], fn=f["id"], export=False))
             self.prov[chain[-1]].setdefault(k, f["id"])
+        def consume(sc):
+            f = self.new_fn(params=[dict(k="obj", fields=[self.leaf_param(k)])], results=[], err=True)
+            self.ops.append(dict(op="invoke", scope=sc, fn=f["id"]))
+        # late decoration: the deepest scope resolves the key BEFORE a decorator appears two or
+        # more levels above it (and between the two Decorate calls), then again afterwards
+        late = self.chance(0.45)
+        if late:
+            consume(leaf)
         for sc in (chain[-1], chain[1]):
+            if late and sc == chain[1] and self.chance(0.5):
+                consume(leaf)
             res = dict(k="group", ty=k[1], group=k[2], flatten=False, **{"as": []}) if grp else dict(k="single", ty=k[1], name=k[2], **{"as": []})
             if grp and k[1] < 3 and self.chance(self.p["p_ns"]):
                 res["ns"] = self.r.choice([1, 2])
@@ -402,10 +412,9 @@ class Gen:
             f = self.new_fn(params=self.structure_params(par), results=[dict(k="obj", fields=[res])], err=self.chance(0.3))
             self.decorate_fn(f, role="dec")
             self.ops.append(dict(op="decorate", scope=sc, fn=f["id"]))
-        order = [chain[-1], leaf] if self.chance(0.6) else [leaf, chain[-1], chain[1]]
+        order = [leaf, chain[-1]] if late else ([chain[-1], leaf] if self.chance(0.6) else [leaf, chain[-1], chain[1]])
         for sc in order:
-            f = self.new_fn(params=[dict(k="obj", fields=[self.leaf_param(k)])], results=[], err=True)
-            self.ops.append(dict(op="invoke", scope=sc, fn=f["id"]))
+            consume(sc)
 
     def gen_decorate(self):
         if self.chance(self.p.get("p_dec_chain", 0.0)) and len(self.ops) < 14:
